@@ -11,6 +11,13 @@ structure St where
   /-- declared payloads (valid for ser.DecodeBytes) with their end-height attribute -/
   table : List (Bytes × Option Nat) := []
   snap : Option (List Bytes × Option Bytes) := none
+  /-- the `gone` oldest rotated files have been deleted by checkTotalSizeLimit -/
+  gone : Nat := 0
+  /-- the group's `minIndex` field (recomputed only by OpenGroup) -/
+  minIdx : Nat := 0
+  headLimit : Nat := 10485760
+  totalLimit : Nat := 1073741824
+  started : Bool := false
 
 def codecOf (table : List (Bytes × Option Nat)) : Codec :=
   { crc := Go.Crc32c.checksumNat
@@ -101,11 +108,50 @@ def step (s : St) (toks : List String) : St × String :=
       match s.g.tick flushFirst l with
       | none => (s, "panic")
       | some g => ({ s with g := g }, s!"rotated={decide (g.files.length > s.g.files.length)}")
-  | "crash" :: _ => ({ s with g := s.g.crash }, "ok")
+  | "crash" :: _ =>
+    -- the harness stops a started group first (OnStop flushes); OpenGroup rebuilds min/max from the directory listing
+    let g := (if s.started then s.g.flush else s.g).crash
+    if s.gone == g.files.length then ({ s with g := { g with files := [] }, gone := 0, minIdx := 0, started := false }, "ok")
+    else ({ s with g := g, minIdx := s.gone, started := false }, "ok")
+  | "walsvc" :: _ =>
+    -- baseWAL as a service on a log of its own; records are named by their EndHeight height (see harness/c14/svc.go)
+    match arg? toks "seq" with
+    | none => (s, "bad-op")
+    | some seq =>
+      let showL (xs : List Nat) : String := if xs.isEmpty then "-" else ",".intercalate (xs.map toString)
+      let r := seq.toList.foldl (fun (acc : List Nat × List Nat × Nat × List String) ch =>
+        let (disk, buf, next, out) := acc
+        if ch == 'S' then (if disk.isEmpty then (disk ++ buf ++ [0], [], next, out) else acc)   -- OnStart: head size 0 ⇒ WriteSync(EndHeight{0})
+        else if ch == 'w' then (disk, buf ++ [next], next + 1, out)
+        else if ch == 'W' then (disk ++ buf ++ [next], [], next + 1, out)
+        else if ch == 'X' then (disk ++ buf, [], next, out)
+        else if ch == 'D' then (disk, buf, next, out ++ ["D=" ++ showL disk])
+        else acc) (([] : List Nat), ([] : List Nat), 1, ([] : List String))
+      (s, " ".intercalate r.2.2.2)
+  | "gstart" :: _ => ({ s with started := true }, "ok")
+  | "gstop" :: _ => ({ s with g := s.g.flush, started := false }, "ok")
+  | "limits" :: _ =>
+    match argNat? toks "head", argNat? toks "total" with
+    | some h, some t => ({ s with headLimit := h, totalLimit := t }, s!"head={h} total={t}")
+    | _, _ => (s, "bad-op")
+  | "waittick" :: _ =>
+    if !s.started then (s, "ok") else
+    -- processTicks: checkHeadSizeLimit, then checkTotalSizeLimit
+    match s.g.tick flushFirst s.headLimit with
+    | none => (s, "panic")
+    | some g =>
+      let sizes := (g.files.drop s.gone).map List.length
+      let n := pruneCount s.totalLimit sizes (g.head.getD []).length
+      ({ s with g := g, gone := s.gone + n }, "ok")
+  | "ginfo" :: _ =>
+    let g := s.g
+    let none' := s.gone == g.files.length
+    let total := ((g.files.drop s.gone).map List.length).sum + (g.head.getD []).length
+    (s, s!"dirmin={if none' then 0 else s.gone} dirmax={if none' then 0 else g.files.length} total={total} head={(g.head.getD []).length} gmin={s.minIdx} gmax={g.files.length}")
   | "disk" :: _ =>
-    let fs := s.g.files
-    let sizes := if fs.isEmpty then "-" else ",".intercalate (fs.map (fun f => toString f.length))
-    let crcs := if fs.isEmpty then "-" else ",".intercalate (fs.map crcHex)
+    let fs := if s.gone == s.g.files.length then [] else s.g.files   -- the directory listing: highest numeric suffix + 1
+    let sizes := if fs.isEmpty then "-" else ",".intercalate (fs.zipIdx.map (fun (f, i) => if i < s.gone then "missing" else toString f.length))
+    let crcs := if fs.isEmpty then "-" else ",".intercalate (fs.zipIdx.map (fun (f, i) => if i < s.gone then "missing" else crcHex f))
     let head := match s.g.head with | none => "none" | some h => s!"{h.length}:{crcHex h}"
     (s, s!"n={fs.length} sizes={sizes} crcs={crcs} head={head}")
   | "cut" :: _ =>
@@ -133,13 +179,29 @@ def step (s : St) (toks : List String) : St × String :=
   | "read" :: _ =>
     match argNat? toks "idx", argNat? toks "skip" with
     | some i, some sk =>
-      if s.g.canOpen i then (s, "r=" ++ showTrace s.table (trace c s.g.tail (sk != 0) (s.g.stream i)))
+      if s.g.canOpenP s.gone i then (s, "r=" ++ showTrace s.table (trace c s.g.tail (sk != 0) (s.g.stream i)))
       else (s, "r=e:open")
     | _, _ => (s, "bad-op")
+  | "catchup" :: _ =>
+    -- the start-up path of a real ConsensusState at its genesis height 1 on a copy of the files
+    let auto0 : Bytes := [0x41, 0x55, 0x54, 0x4F]   -- stand-in for the EndHeight{0} record that OnStart writes into an empty head
+    let tbl := s.table ++ [(auto0, some 0)]
+    let c' := codecOf tbl
+    let g' := s.g.startWal c' auto0
+    let (ms, o) := catchup c' g' 1
+    let toks' := ms.map (fun p => showRes tbl (Res.msg p))
+    let os := match o with
+      | .done => "done"
+      | .hasMarker => "err:has-marker"
+      | .noMarker => "err:no-marker"
+      | .err r => "err:" ++ showRes tbl r
+      | .openFailed => "err:e:open"
+      | .panicCorrupt => "panic-corrupt"
+    (s, s!"replay={if toks'.isEmpty then "-" else ",".intercalate toks'} outcome={os}")
   | "search" :: _ =>
     match argNat? toks "h", argNat? toks "ign" with
     | some h, some ign =>
-      match search c s.g h (ign != 0) with
+      match searchP c s.g h (ign != 0) s.gone s.minIdx with
       | .found _ rest => (s, "found then=" ++ showTrace s.table (trace c s.g.tail false rest))
       | .notFound => (s, "notfound")
       | .err r => (s, "err=" ++ showRes s.table r)
